@@ -2240,6 +2240,19 @@ def m_x_JoinedStr(self, st, n, k):
     return self.ev_list(st, exprs, got)
 
 
+def m_s_Global(self, st, s, k):
+    """`global x` in a generated function: the generic loop keeps no state between calls, so generated code that
+    declares module-level state cannot be equivalent to it on every history (the module namespace even survives a
+    redefinition of a same-named class, C15).  Reported as a failing named obligation in translation-validation mode."""
+    if getattr(self, 'tv_mode', False):
+        self.add_obligation(State(), 'structure', 'generated code keeps no module-level state (global %s)' % ', '.join(s.names),
+                            z3.BoolVal(False), '')
+        for nm in s.names:
+            st.loc[nm] = VDyn(fresh('global_' + nm, T.Val))
+        return k(st)
+    raise Untranslated('statement Global')
+
+
 def m_s_With(self, st, s, k):
     """with <expr> as <name>: body  - for the environment's file objects (closing has no modelled effect;
     an exception in the body propagates)"""
